@@ -6,8 +6,9 @@ import pickle
 import sys
 
 _real = sys.byteorder
-sys.byteorder = "big"
-os.environ["VERIF_PRETEND_BIG_ENDIAN"] = "1"
+if len(sys.argv) < 4 or sys.argv[3] != "native":      # "native": keep the byte order (used for the python -O / -OO runs)
+    sys.byteorder = "big"
+    os.environ["VERIF_PRETEND_BIG_ENDIAN"] = "1"
 VERIF = os.path.dirname(os.path.dirname(os.path.abspath(__file__)))
 sys.path.insert(0, VERIF)
 import warnings  # noqa: E402
